@@ -603,6 +603,10 @@ fn deserialize_frame<F: Frame + serde::de::DeserializeOwned>(frame: Bytes) -> Re
     })
 }
 
+#[cfg(all(kani, feature = "server"))]
+#[path = "/verif/kani/iroh_relay/handshake.rs"]
+pub(crate) mod verif_kani;
+
 #[cfg(all(test, feature = "server"))]
 mod tests {
     use bytes::BytesMut;
